@@ -129,7 +129,12 @@ def sharded_pipelines_as_iterator(
               f'unexpected accumulator type {type(state)} during aggregation.',
           )
 
-      merged_state = agg_fn.merge_states(iterate_agg_state())
+      # Every shard has to contribute its state: `iterate` also puts its stop
+      # marker when it gives up (a failed shard, too many timeouts), and an
+      # aggregate of the shards that happened to finish is not a result.
+      merged_state = agg_fn.merge_states(
+          iterate_agg_state(), strict_states_cnt=num_shards
+      )
       # At most only one item in the output_q.
       result_queue.put(
           transform_lib.AggregateResult(
